@@ -539,11 +539,14 @@ pub struct SchemaGenCfg {
     pub docs: bool,
     /// allow Float / Boolean properties
     pub all_scalars: bool,
+    /// percentage of types that get no property of their own (edge-only "container" types when they
+    /// inherit none either); such a type always gets at least one edge
+    pub propertyless_pct: u32,
 }
 
 impl Default for SchemaGenCfg {
     fn default() -> Self {
-        SchemaGenCfg { hostile_names: false, max_list_depth: 2, docs: false, all_scalars: true }
+        SchemaGenCfg { hostile_names: false, max_list_depth: 2, docs: false, all_scalars: true, propertyless_pct: 0 }
     }
 }
 
@@ -559,29 +562,42 @@ pub fn random_prop_ty(rng: &mut Rng, cfg: &SchemaGenCfg) -> Ty {
 }
 
 pub fn random_param(rng: &mut Rng, name: String) -> ParamDef {
-    let ty = match rng.below(6) {
+    let ty = match rng.below(14) {
         0 => "Int",
         1 => "Int!",
         2 => "String",
         3 => "Boolean",
         4 => "[Int!]",
+        5 => "[Int]",
+        6 => "[String]!",
+        7 => "[[Int]!]",
+        8 => "Float",
+        9 => "[Float!]!",
+        10 => "String!",
+        11 => "[Boolean]",
         _ => "Int",
     };
     let ty = Ty::parse(ty).unwrap();
-    let default = if rng.chance(45) {
-        Some(match (ty.base.as_str(), ty.is_list()) {
-            (_, true) => FieldValue::List(
-                vec![FieldValue::Int64(rng.below(6) as i64), FieldValue::Int64(rng.below(6) as i64)]
-                    .into(),
-            ),
-            ("Int", _) => FieldValue::Int64(rng.below(4) as i64),
-            ("String", _) => FieldValue::String((*rng.pick(&["a", "", "b"])).into()),
-            ("Boolean", _) => FieldValue::Boolean(rng.chance(50)),
+    fn scalar(rng: &mut Rng, base: &str) -> FieldValue {
+        match base {
+            "Int" => FieldValue::Int64(rng.below(6) as i64),
+            "String" => FieldValue::String((*rng.pick(&["a", "", "b"])).into()),
+            "Boolean" => FieldValue::Boolean(rng.chance(50)),
+            "Float" => FieldValue::Float64(*rng.pick(&[1.5, -2.25, 0.0, 3.0])),
             _ => FieldValue::Null,
-        })
-    } else {
-        None
-    };
+        }
+    }
+    fn value(rng: &mut Rng, ty: &Ty, level: usize) -> FieldValue {
+        if ty.nullable[level] && rng.chance(20) {
+            return FieldValue::Null;
+        }
+        if level + 1 == ty.nullable.len() {
+            scalar(rng, &ty.base)
+        } else {
+            FieldValue::List((0..rng.range(0, 2)).map(|_| value(rng, ty, level + 1)).collect::<Vec<_>>().into())
+        }
+    }
+    let default = if rng.chance(45) { Some(value(rng, &ty, 0)) } else { None };
     let default = match default {
         Some(FieldValue::Null) if !ty.top_nullable() => None,
         d => d,
@@ -589,16 +605,44 @@ pub fn random_param(rng: &mut Rng, name: String) -> ParamDef {
     ParamDef { name, ty, default }
 }
 
-const HOSTILE_TYPE_NAMES: [&str; 14] = [
+const HOSTILE_TYPE_NAMES: [&str; 22] = [
     "Type", "Type_", "Self_", "Box", "Vec", "Option", "String_", "Vertex", "Adapter", "Foo", "foo",
-    "FOO", "Foo_", "Crate",
+    "FOO", "Foo_", "Crate", "UserID", "UserI_D", "User_Id", "HTTPServer", "HttpServer", "Http_Server",
+    "A_B", "AB",
 ];
 const HOSTILE_FIELD_NAMES: [&str; 22] = [
     "type", "type_", "fn", "match", "self_", "crate_", "super_", "async", "await", "loop", "move",
     "ref", "abc", "Abc", "ABC", "a_b_c", "aBc", "abc_", "_abc", "dyn", "impl", "where",
 ];
 
+/// groups of names that collide (or nearly collide) under some case / underscore normalisation: a
+/// schema with hostile names draws most of them from ONE group so that colliding pairs actually co-occur
+const TYPE_FAMILIES: [&[&str]; 5] = [
+    &["UserID", "UserI_D", "User_Id", "UserId", "User_ID"],
+    &["HTTPServer", "HttpServer", "Http_Server", "HTTP_Server"],
+    &["Foo", "foo", "FOO", "Foo_", "_Foo", "F_oo"],
+    &["Type", "Type_", "Self_", "Box", "Vec", "Option", "Vertex", "Adapter"],
+    &["A_B", "AB", "Ab", "A_b", "aB"],
+];
+const FIELD_FAMILIES: [&[&str]; 4] = [
+    &["abc", "Abc", "ABC", "a_b_c", "aBc", "abc_", "_abc", "aBC"],
+    &["type", "type_", "fn", "match", "self_", "crate_", "super_", "async", "await", "dyn", "impl", "where"],
+    &["userID", "userId", "user_id", "user_i_d", "userI_D"],
+    &["loop", "move", "ref", "yield", "box", "try", "abstract", "final"],
+];
+
 fn uniq_name(rng: &mut Rng, pool: &[&str], used: &mut BTreeSet<String>, fallback: &str) -> String {
+    // family chosen per schema: derived from the first hostile name already in use, else random
+    let families: &[&[&str]] = if pool.as_ptr() == HOSTILE_TYPE_NAMES.as_ptr() { &TYPE_FAMILIES } else { &FIELD_FAMILIES };
+    let fam = families.iter().find(|f| f.iter().any(|n| used.contains(*n))).copied().unwrap_or_else(|| *rng.pick(families));
+    if rng.chance(75) {
+        for _ in 0..6 {
+            let c = rng.pick(fam).to_string();
+            if used.insert(c.clone()) {
+                return c;
+            }
+        }
+    }
     for _ in 0..8 {
         let c = rng.pick(pool).to_string();
         if used.insert(c.clone()) {
@@ -788,12 +832,13 @@ pub fn random_schema(rng: &mut Rng, cfg: &SchemaGenCfg) -> SchemaModel {
             ed.target = target;
         }
         // own new fields
-        let n_props = rng.range(1, 4);
+        let propertyless = cfg.propertyless_pct > 0 && rng.chance(cfg.propertyless_pct);
+        let n_props = if propertyless { 0 } else { rng.range(1, 4) };
         for _ in 0..n_props {
             let name = fresh_field(rng, "p");
             props.push(PropDef { ty: random_prop_ty(rng, cfg), doc: doc(rng, &name), name });
         }
-        let n_edges = rng.range(0, 3);
+        let n_edges = if propertyless { rng.range(1, 3) } else { rng.range(0, 3) };
         for _ in 0..n_edges {
             let name = fresh_field(rng, "e");
             let target = rng.pick(&type_names).clone();
